@@ -143,6 +143,53 @@ func main() {
 		doDump(w, *dump, *dumpMode)
 		return
 	}
+	if *prop == "all" {
+		// tooling only (guard-mutant campaign, tools/guard_mutants.py): every rule set over one loaded world, one line per
+		// property with the keys that are not discharged; no evidence is written and no verdict of a registered check uses it.
+		var ids []string
+		for id := range rules {
+			ids = append(ids, id)
+		}
+		sort.Strings(ids)
+		known, _ := loadKnownFindings(filepath.Join(*verif, "known_findings.txt"))
+		isKnown := map[string]bool{}
+		for _, k := range known {
+			isKnown[k.Prop+"/"+k.Key] = true
+			isKnown[k.Key] = true
+		}
+		any := false
+		for _, id := range ids {
+			c := NewCtx(w, id, *tier)
+			func() {
+				defer func() {
+					if rec := recover(); rec != nil {
+						c.Unk("internal/panic", "the checker must not crash", "-", fmt.Sprintf("panic: %v", rec))
+					}
+				}()
+				rules[id].Run(c)
+				for _, more := range alsoRun[id] {
+					more(c)
+				}
+			}()
+			var bad []string
+			for _, o := range c.Obls {
+				if o.Status != Discharged && !isKnown[o.Key] {
+					bad = append(bad, o.Key)
+				}
+			}
+			sort.Strings(bad)
+			if len(bad) > 0 {
+				any = true
+				fmt.Printf("ALL %s flagged %d: %s\n", id, len(bad), strings.Join(bad, " "))
+			} else {
+				fmt.Printf("ALL %s silent (%d obligations)\n", id, len(c.Obls))
+			}
+		}
+		if any {
+			os.Exit(1)
+		}
+		os.Exit(0)
+	}
 	r := rules[*prop]
 	if r == nil {
 		var ids []string
